@@ -82,6 +82,8 @@ def _(value: bt.DateTime, /) -> ht.datetime:
 
 @_convert_to_ht_datetime.register
 def _(value: dt.datetime, /) -> ht.datetime:
+    # Pass tzinfo by keyword: hightime only accepts a positional tzinfo (in the place of the
+    # femtosecond argument) when it is a datetime.timezone or None.
     return ht.datetime(
         value.year,
         value.month,
@@ -90,7 +92,7 @@ def _(value: dt.datetime, /) -> ht.datetime:
         value.minute,
         value.second,
         value.microsecond,
-        value.tzinfo,
+        tzinfo=value.tzinfo,
         fold=value.fold,
     )
 
